@@ -626,6 +626,12 @@ class Builder:
     def decl_array(self):
         el = self.weighted(self.array_el_types())
         name = self.fresh('a')
+        if 'shadow' in self.F and self.cur_func is not None and self.chance(8):
+            # a local array may shadow a global (array) of the same name: lookups by name must find the local
+            taken = {v.name for scope in self.scopes for v in scope}
+            cands = [g.name for g in self.globals if is_arr(g.ty) and g.name not in taken and g.name not in getattr(self, 'mutators', {})]
+            if cands:
+                name = self.pick(cands)
         form = self.weighted([(45, 'lit'), (30, 'vla'), (10, 'alias'), (15, 'constlit')])
         if form == 'alias':
             vs = self.vars_of(lambda v: is_arr(v.ty) and v.ty[1] == el)
@@ -655,7 +661,24 @@ class Builder:
                     elems.append(self.coercing(el, 2) if el != STRING else self.string_expr(1))
             ty = arr(el, const)
             self.declare(VarInfo(name, ty, const=True, static_len=n))
-            return [Decl(ty, True, name, ArrLit(elems, t=ty))]
+            out = [Decl(ty, True, name, ArrLit(elems, t=ty))]
+            if const and prim and n >= 1 and el != STRING and self.chance(30):
+                # a sibling constant with the same leading elements and a tail of zero / false elements (or a shorter prefix):
+                # constants that look alike in the data section must still be different objects with their own lengths
+                import copy as _copy
+                zero = {INT: lambda: Lit('int', 0, None, t=INT), BYTE: lambda: Lit('char', 0, None, t=BYTE), BOOL: lambda: Lit('bool', False, None, t=BOOL)}[el]
+                if self.chance(70):
+                    sib = [_copy.deepcopy(x) for x in elems] + [zero() for _ in range(self.integer(1, 9))]
+                else:
+                    sib = [_copy.deepcopy(x) for x in elems[:max(1, n - 1)]]
+                sname = self.fresh('a')
+                self.declare(VarInfo(sname, ty, const=True, static_len=len(sib)))
+                out.append(Decl(ty, True, sname, ArrLit(sib, t=ty)))
+                for nm, ln in ((name, n), (sname, len(sib))):
+                    out.append(ExprStmt(Call('write', [Len(Var(nm, t=ty), t=INT)], t=EMPTY)))
+                    last = Index(Var(nm, t=ty), Lit('int', ln - 1, None, t=INT), t=el)
+                    out.append(ExprStmt(Call('writeln', [Is(last, INT, t=INT) if el == BYTE else last], t=EMPTY)))
+            return out
         # VLA + fill loop
         if 'faults' in self.F and self.chance(8):
             length = self.pick([Lit('int', -1, None, t=INT), Lit('int', -7, None, t=INT), Lit('int', -8, None, t=INT),
@@ -1237,6 +1260,12 @@ class Builder:
             used.add(pname)
             if allow_arrays and 'arrays' in self.F and self.chance(30):
                 el = self.weighted(self.array_el_types())
+                if 'shadow' in self.F and self.chance(20):
+                    # an array parameter named like a global array of the same element type
+                    same = [g.name for g in self.globals if is_arr(g.ty) and g.ty[1] == el and g.name not in used and g.name not in getattr(self, 'mutators', {})]
+                    if same:
+                        pname = self.pick(same)
+                        used.add(pname)
                 params.append(Param(arr(el, self.chance(50)), True, pname))
             else:
                 ty = self.weighted(self.scalar_types())
